@@ -50,6 +50,19 @@ checks = {
     text="Each real builder invocation (operator x operand widths x result width x target x algorithm) is compiled by the real circuits.Compiler and its output is proved equal to the exact function mod 2^wz for ALL operand values by z3 (per-output-bit incremental miter); the width/configuration quantifier is an enumerated, stated family. Counterexamples are replayed through the real Circuit.Compute.",
     ref="DESIGN.md C07", engine="circtv", script="python3-vt",
     note="Trusted base: z3; the 60-line gate-to-term translation (same semantics as Circuit.Compute); the reference terms. Builders run natively from /repo's working tree (extractor rebuilt every run). Bounds and the exotic width classes recorded as known findings are listed in the evidence file and known_findings.txt."),
+ "C05": dict(cat="translation_validation", tech="SMT miter (z3): symbolic replay of the tapped gate stream of a real streaming session vs the whole compiled circuit, all inputs",
+    text="For each program of a stated corpus (alias-stress family: mov/smov casts of temporaries, constant shifts, slices, array element updates, run-time indexing, structs, multi-result calls, id-recycling loops, unsized signatures; plus seeded generated programs) one REAL streaming session (Compiler.Stream || StreamEvaluator, in-memory connection, ideal OT) is run; a tap on the garbler->evaluator bytes decodes the complete gate stream with the real p2p.Conn; the stream is replayed symbolically over the evaluator's wire memory (recycled ids overwrite) and z3 proves the streamed outputs equal to the whole compiled circuit's outputs for ALL inputs. Both parties' concrete results and output types are compared with the whole circuit as well.",
+    ref="DESIGN.md C05", engine="circtv", script="python3-vt",
+    note="Trusted base: z3; the symbolic replay of the gate stream (StreamEvaluator's wire-memory semantics); the tap decoder (uses the real p2p.Conn Receive functions). The program quantifier is an enumerated, seeded family; label-level garbling is covered by the concrete session and C01."),
+ "C15": dict(cat="other", tech="bounded symbolic execution of go/ssa + SMT (z3): symbolic choice vectors and symbolic tamper positions/masks; Delta, extension-matrix randomness and chi are concrete samples",
+    text="The real malicious-mode IKNP code (Receive/Send with malicious=true incl. the 256-row check batch and the KOS-style comparison) runs with the receiver's messages queued so that the harness can alter them: one or two bits of the payload or check-batch u-matrix at a SYMBOLIC (column,row), an arbitrary row mask, arbitrary masks on the challenge response. z3 decides over all choice vectors and all positions/masks that the sender aborts or ends consistent with the receiver's original choices, and that honest runs never abort. Stated reduction: Delta (3 samples), base keys/PRG, check-batch choices and chi are concrete samples; the CLMUL assembly is replaced by the pure-Go multiplier (whose basis-vector linearity is proved for all operands).",
+    ref="DESIGN.md C15", engine="gosymx"),
+ "C17": dict(cat="other", tech="bounded symbolic exploration of go/ssa: scheduler preemptions at synchronisation operations, sync.Pool choices and inputs as solver-level decisions",
+    text="Reuse histories (Garble/Release/double Release/Garble with sync.Pool.Get free to return any released scratch) and interleavings of 2-3 goroutines on one fresh shared circuit, with preemption before and after every atomic/pool operation up to a stated budget, are explored exhaustively on the real Garble/garbleScratchPool/Release/Eval/Compute code; every garbling must evaluate to the plain result, live garblings never share buffers, no call fails. Data races proper (no happens-before tracking) are outside the claim.",
+    ref="DESIGN.md C17", engine="gosymx"),
+ "C20": dict(cat="other", tech="bounded symbolic execution of go/ssa + SMT (z3): symbolic labels/operands; big.Int Mul/Mod as uninterpreted functions with Mod's contract (all moduli) and exact bit-vector arithmetic (small primes)",
+    text="BMR: the real FxSend/FxReceive/FxkSend/FxkReceive over an ideal OT with symbolic a, b, label s and randomness: r xor xb = a*b and = b*s for every value. VOLE: the real Sender.Mul || Receiver.Mul over a real p2p.Pipe and the real IKNP extension: (1) for every modulus and operands below 2^256, with Mul/Mod uninterpreted, the receiver's u_i is the term (r_i + x_i*(y_i mod p) mod p) mod p over the sender's own r_i (m = 1, 3x2; thorough 9, 65); (2) with exact arithmetic for p in {2,3,7,13} (thorough 251) u_i - r_i = x_i*y_i mod p for all field elements.",
+    ref="DESIGN.md C20", engine="gosymx"),
 }
 na = {
  "C08": "whole-compiler run-time nondeterminism (Go map iteration order, scheduling across compiler runs) cannot be made symbolic: it would need the entire MPCL compiler executed inside the symbolic engine; no bounded kernel isolates the order dependence",
